@@ -2,6 +2,7 @@ package rules
 
 import (
 	"fmt"
+	"go/token"
 	"go/types"
 	"sort"
 	"strings"
@@ -185,7 +186,8 @@ func c17(w *core.World, r *core.Report) {
 
 	// ---- SNAPSHOT
 	// ---- LAZY-LOAD-COMPLETE
-	r.Rule("LAZY-LOAD-COMPLETE", 4, "the lazily loaded key indexes answer the same to every validator: in each method of TreeCacheClientImpl that finds intendedStoreIndex / runningStoreIndex nil, every path from that outcome to the next read of the index (or to a return) runs TreeCacheClientImpl.RefreshCaches, which fills the index under its write lock. A shortcut for 'somebody else is refreshing already' (TryLock, a flag) lets a concurrent validator read a nil index as 'path does not exist' while the sequential run waits for the load.")
+	r.Rule("LAZY-LOAD-COMPLETE", 2, "the lazily loaded key indexes answer the same to every validator: in each method of TreeCacheClientImpl that finds intendedStoreIndex / runningStoreIndex nil, every path from that outcome to the next read of the index (or to a return) runs TreeCacheClientImpl.RefreshCaches, which fills the index under its write lock. A shortcut for 'somebody else is refreshing already' (TryLock, a flag) lets a concurrent validator read a nil index as 'path does not exist' while the sequential run waits for the load.")
+	indexType := "map[string]" + core.Module + "/pkg/tree.UpdateSlice"
 	for _, f := range w.RepoFns {
 		if f.Signature == nil || f.Signature.Recv() == nil || core.TypeKey(f.Signature.Recv().Type()) != "tree.TreeCacheClientImpl" || core.IsInlined(f) {
 			continue
@@ -196,8 +198,13 @@ func c17(w *core.World, r *core.Report) {
 				if !ok {
 					continue
 				}
+				// an index: a value of the type of the two index fields (map[string]UpdateSlice) - the field itself, the
+				// field of a sub-struct the indexes were moved into, or what a pointer handed to a shared helper points to
 				fk := core.FieldOf(x)
-				if fk != "tree.TreeCacheClientImpl.intendedStoreIndex" && fk != "tree.TreeCacheClientImpl.runningStoreIndex" {
+				if fk != "tree.TreeCacheClientImpl.intendedStoreIndex" && fk != "tree.TreeCacheClientImpl.runningStoreIndex" && x.Type().String() != indexType {
+					continue
+				}
+				if _, isLoad := x.(*ssa.UnOp); !isLoad {
 					continue
 				}
 				nilSucc := iff.Block().Succs[1]
@@ -211,8 +218,14 @@ func c17(w *core.World, r *core.Report) {
 					if core.IsExit(in) {
 						return true
 					}
-					v, isVal := in.(ssa.Value)
-					return isVal && v != x && core.FieldOf(v) == fk
+					v, isVal := in.(*ssa.UnOp)
+					if !isVal || ssa.Value(v) == x || v.Op != token.MUL {
+						return false
+					}
+					if fk != "" {
+						return core.FieldOf(v) == fk
+					}
+					return v.Type().String() == indexType
 				})
 				r.Check(!reach, "LAZY-LOAD-COMPLETE", core.Site(f, "index found nil is refreshed before it is read"), w.InstrPos(iff), "a path from the 'index is nil' outcome reaches the next read of the index (or a return) without RefreshCaches: under concurrency that validator answers from an index that is not loaded")
 			}
